@@ -139,12 +139,37 @@ type world struct {
 	blocks []*HBlock
 	cur    []ev
 	nonce  uint64
-	gate   chan struct{}
 	open   bool
+	// accepter gate.  accOrder: the blocks Accept was called on in normal operation, in call order
+	// (= the order in which the async accepter must hand them to Chain.AcceptBlock); accDone: how
+	// many of them Chain.AcceptBlock has handled in that order.  Chain.AcceptBlock on the next
+	// expected block waits until the driver allows that block (op "process"); a call on any other
+	// block is out of order - it is not held back, it is logged as it comes.
+	cond     *sync.Cond
+	accOrder []int
+	accDone  int
+	allowed  map[int]bool
+	outOfOrd map[int]bool
 }
 
 func newWorld() *world {
-	return &world{num: map[ids.ID]int{}, gate: make(chan struct{}, 64)}
+	w := &world{num: map[ids.ID]int{}, allowed: map[int]bool{}, outOfOrd: map[int]bool{}}
+	w.cond = sync.NewCond(&w.mu)
+	return w
+}
+
+func (w *world) allow(b int) {
+	w.mu.Lock()
+	w.allowed[b] = true
+	w.mu.Unlock()
+	w.cond.Broadcast()
+}
+
+func (w *world) setOpen(v bool) {
+	w.mu.Lock()
+	w.open = v
+	w.mu.Unlock()
+	w.cond.Broadcast()
 }
 
 func (w *world) register(b *HBlock) int {
@@ -295,12 +320,19 @@ func (c *hchain) VerifyBlock(_ context.Context, parent *HBlock, blk *HBlock) (*H
 }
 
 func (c *hchain) AcceptBlock(_ context.Context, parentAcc *HBlock, out *HBlock) (*HBlock, error) {
-	c.w.mu.Lock()
-	open := c.w.open
-	c.w.mu.Unlock()
-	if !open {
-		<-c.w.gate
+	w := c.w
+	w.mu.Lock()
+	nb, known := w.num[out.id]
+	inOrder := known && w.accDone < len(w.accOrder) && w.accOrder[w.accDone] == nb
+	if inOrder {
+		for !w.open && !w.allowed[nb] {
+			w.cond.Wait()
+		}
+		w.accDone++
+	} else if known && !w.open {
+		w.outOfOrd[nb] = true
 	}
+	w.mu.Unlock()
 	if parentAcc == nil {
 		c.w.log(ev{K: "accept", Nil: true, B: c.w.numOf(out, 1)})
 	} else {
@@ -490,6 +522,7 @@ type node struct {
 	heights map[int]uint64
 	pending []int // block numbers accepted in normal operation and not yet processed
 	initEv  []ev
+	stash   *obsT // observation of the accepter step forced by an Accept on a full queue
 }
 
 func newNode(t *testing.T, cfg cfgT) (*node, error) {
@@ -537,15 +570,7 @@ func newNode(t *testing.T, cfg cfgT) (*node, error) {
 }
 
 func (n *node) close() {
-	n.w.mu.Lock()
-	n.w.open = true
-	n.w.mu.Unlock()
-	for i := 0; i < 40; i++ {
-		select {
-		case n.w.gate <- struct{}{}:
-		default:
-		}
-	}
+	n.w.setOpen(true)
 	done := make(chan struct{})
 	go func() { _ = n.vm.Shutdown(n.ctx); close(done) }()
 	select {
@@ -659,9 +684,22 @@ func (n *node) exec(o opT) (obs obsT) {
 			err = blk.VerifyWithContext(ctx, pctxOf(o.C))
 		case "accept":
 			wasReady := n.isReady()
+			nb := n.w.numOfID(blk.ID())
+			if wasReady {
+				n.w.mu.Lock()
+				n.w.accOrder = append(n.w.accOrder, nb)
+				n.w.mu.Unlock()
+			}
+			if wasReady && len(n.pending) >= acceptBacklog {
+				return n.acceptOnFullQueue(blk, nb)
+			}
 			err = blk.Accept(ctx)
 			if err == nil && wasReady {
-				n.pending = append(n.pending, n.w.numOfID(blk.ID()))
+				n.pending = append(n.pending, nb)
+			} else if wasReady {
+				n.w.mu.Lock()
+				n.w.accOrder = n.w.accOrder[:len(n.w.accOrder)-1]
+				n.w.mu.Unlock()
 			}
 		case "reject":
 			err = blk.Reject(ctx)
@@ -686,20 +724,24 @@ func (n *node) exec(o opT) (obs obsT) {
 			r = resT{K: "err", Code: 9, Unres: -1}
 			break
 		}
+		if n.stash != nil {
+			// the accepter step that made room for the preceding Accept on a full queue
+			st := *n.stash
+			n.stash = nil
+			return st
+		}
 		want := n.pending[0]
 		n.pending = n.pending[1:]
-		n.w.gate <- struct{}{}
-		deadline := time.Now().Add(10 * time.Second)
-		ok := false
-		for time.Now().Before(deadline) {
-			a, err := n.vm.GetConsensusIndex().GetLastAccepted(ctx)
-			if err == nil && n.w.numOf(a, -1) == want {
-				ok = true
-				break
-			}
-			time.Sleep(50 * time.Microsecond)
+		n.w.mu.Lock()
+		ooo := n.w.outOfOrd[want]
+		n.w.mu.Unlock()
+		if ooo {
+			// Chain.AcceptBlock already ran on this block, out of turn: the accepter will never get to it
+			r = resT{K: "err", Code: 97, Unres: -1}
+			break
 		}
-		if ok {
+		n.w.allow(want)
+		if n.waitProcessed(want, 10*time.Second) {
 			r = unitRes()
 		} else {
 			r = resT{K: "err", Code: 97, Unres: -1}
@@ -780,13 +822,9 @@ func (n *node) exec(o opT) (obs obsT) {
 		b := n.w.blocks[o.A]
 		// the queue is empty here (the accepter is idle): AcceptBlock calls made by the
 		// re-processing run on this goroutine and must not wait for the gate
-		n.w.mu.Lock()
-		n.w.open = true
-		n.w.mu.Unlock()
+		n.w.setOpen(true)
 		err := n.vm.FinishStateSync(ctx, b, b.as(1), b.as(2))
-		n.w.mu.Lock()
-		n.w.open = false
-		n.w.mu.Unlock()
+		n.w.setOpen(false)
 		if err != nil {
 			r = errRes(err)
 		} else {
@@ -804,6 +842,98 @@ func (n *node) exec(o opT) (obs obsT) {
 		evs = []ev{}
 	}
 	return obsT{R: r, Ev: evs}
+}
+
+// acceptBacklog: snow.VM's acceptedQueue holds 16 blocks; with the accepter goroutine held inside
+// Chain.AcceptBlock of an earlier block, the 18th outstanding Accept (1 in flight + 16 queued)
+// finds the queue full.
+const acceptBacklog = 17
+
+func (n *node) waitProcessed(want int, d time.Duration) bool {
+	deadline := time.Now().Add(d)
+	for time.Now().Before(deadline) {
+		a, err := n.vm.GetConsensusIndex().GetLastAccepted(n.ctx)
+		if err == nil && n.w.numOf(a, -1) == want {
+			return true
+		}
+		time.Sleep(50 * time.Microsecond)
+	}
+	return false
+}
+
+// acceptOnFullQueue: Accept while acceptBacklog accepted blocks are outstanding and the accepter is
+// held on the oldest one.  The queue is full, so Accept (the engine thread) must block until the
+// accepter has finished the oldest block and taken the next one from the queue: the call cannot
+// return before the driver lets the accepter go on.  The driver gives the call a moment (a call that
+// returns by itself is recorded as it is), then allows the oldest outstanding block and waits for
+// the call to return.  What happened is recorded as two engine-visible steps, in the order of the
+// callbacks: "accept" (the index write) and "process" (the accepter's AcceptBlock + notification of
+// the oldest block; returned by the next "process" op).  Timing only decides when the accepter is
+// let go, never what is recorded on a correct VM.
+func (n *node) acceptOnFullQueue(blk *hblk, nb int) obsT {
+	errc := make(chan error, 1)
+	go func() {
+		defer func() {
+			if r := recover(); r != nil {
+				errc <- fmt.Errorf("panic: %v", r)
+			}
+		}()
+		errc <- blk.Accept(n.ctx)
+	}()
+	res := func(err error) resT {
+		if err != nil {
+			return errRes(err)
+		}
+		return unitRes()
+	}
+	select {
+	case err := <-errc:
+		// returned although the queue is full
+		if err == nil {
+			n.pending = append(n.pending, nb)
+		}
+		return obsT{R: res(err), Ev: nonNil(n.w.take())}
+	case <-time.After(40 * time.Millisecond):
+	}
+	head := n.pending[0]
+	n.w.allow(head)
+	select {
+	case err := <-errc:
+		if err != nil {
+			return obsT{R: res(err), Ev: nonNil(n.w.take())}
+		}
+		ok := n.waitProcessed(head, 10*time.Second)
+		n.pending = append(n.pending[1:], nb)
+		var mine, accepter []ev
+		for _, e := range n.w.take() {
+			if e.K == "accept" || e.K == "nacc" {
+				accepter = append(accepter, e)
+			} else {
+				mine = append(mine, e)
+			}
+		}
+		pr := unitRes()
+		if !ok {
+			pr = resT{K: "err", Code: 97, Unres: -1}
+		}
+		n.stash = &obsT{R: pr, Ev: nonNil(accepter)}
+		return obsT{R: unitRes(), Ev: nonNil(mine)}
+	case <-time.After(10 * time.Second):
+		// a hang: let everything through so that the walk can end, and report it
+		n.w.setOpen(true)
+		select {
+		case <-errc:
+		case <-time.After(10 * time.Second):
+		}
+		return obsT{R: resT{K: "err", Code: 96, Unres: -1}, Ev: nonNil(n.w.take())}
+	}
+}
+
+func nonNil(evs []ev) []ev {
+	if evs == nil {
+		return []ev{}
+	}
+	return evs
 }
 
 func (n *node) isReady() bool {
@@ -885,6 +1015,7 @@ type engine struct {
 	useCtx   bool   // C20: blocks may carry a P-Chain context, verify / build may be given one
 	ictx     []*int // by block number: inner context
 	ctxSig   string // first observed misbehaviour around a context check (for the case signature)
+	replaying bool
 }
 
 func newEngine(r *rand.Rand, n *node, cfg cfgT) *engine {
@@ -1006,6 +1137,10 @@ func (e *engine) do(o opT) obsT {
 		if r.K == "unit" {
 			e.ready = true
 		}
+	}
+	if o.K == "accept" && e.n.stash != nil && !e.replaying {
+		// Accept on a full queue: the accepter step that made room for it is the next op
+		e.do(opT{K: "process"})
 	}
 	return ob
 }
@@ -1428,6 +1563,101 @@ func genLifecycle(t *testing.T, r *rand.Rand, kind string, hd *holder) (*engine,
 	return e, nil
 }
 
+// genBacklog: the async accepter falls behind.  A linear chain of 20-26 verified blocks (parsed or
+// built, with side forks) on top of a short normal prefix; then the engine accepts the whole chain
+// while the accepter is held inside Chain.AcceptBlock of the oldest outstanding block: after 1 in
+// flight + 16 queued the queue is full and every further Accept has to wait for the accepter
+// (acceptOnFullQueue); lookups in between; finally the queue is drained.
+func genBacklog(t *testing.T, r *rand.Rand, kind string, hd *holder) (*engine, error) {
+	cfg := cfgT{W: 128, P: []int{2, 3, 128}[r.Intn(3)], Ready: true, Q: acceptBacklog + 1}
+	n, err := newNode(t, cfg)
+	if err != nil {
+		return nil, err
+	}
+	e := newEngine(r, n, cfg)
+	e.useCtx = strings.HasSuffix(kind, "+ctx")
+	hd.set(e)
+	// a short ordinary prefix, fully processed
+	for i := r.Intn(12); i > 0; i-- {
+		e.action(true, 10)
+	}
+	e.rejectDoomed(true)
+	for e.pending > 0 {
+		if e.do(opT{K: "process"}).R.K != "unit" {
+			return e, nil
+		}
+	}
+	// the chain to accept: continue a processing branch, then extend it
+	var chain []int
+	tip := e.last
+	for {
+		kids := e.childrenOf(tip)
+		if len(kids) == 0 {
+			break
+		}
+		tip = e.pick(kids)
+		chain = append(chain, tip)
+	}
+	length := 20 + r.Intn(7)
+	for tries := 0; len(chain) < length && tries < 4*length; tries++ {
+		var ob obsT
+		if r.Intn(4) == 0 {
+			e.do(opT{K: "setPref", A: tip})
+			ob = e.do(e.buildOp())
+		} else {
+			ob = e.do(e.parseNewOp(tip, false))
+		}
+		if ob.R.K != "blk" || ob.R.H < 0 {
+			continue
+		}
+		if v := e.verify(ob.R.H); v.R.K != "unit" && e.verifiable(ob.R.H) {
+			e.do(e.verifyOp(ob.R.H, true))
+		}
+		if !e.isProc(ob.R.B) {
+			continue
+		}
+		tip = ob.R.B
+		chain = append(chain, tip)
+		if r.Intn(5) == 0 { // a side fork that will be rejected
+			side := e.do(e.parseNewOp(e.parent[tip], r.Intn(4) == 0))
+			if side.R.K == "blk" && side.R.H >= 0 && r.Intn(2) == 0 {
+				e.verify(side.R.H)
+			}
+		}
+		if r.Intn(6) == 0 {
+			e.lookups(1)
+		}
+	}
+	if !e.isProc(e.pref) && e.pref != e.last {
+		e.do(opT{K: "setPref", A: e.last})
+	}
+	// accept the whole chain; the accepter handles a block only when the queue forces it to
+	// (or, rarely, a little earlier)
+	for i, b := range chain {
+		if !e.isProc(b) || e.parent[b] != e.last || !e.canAccept() {
+			break
+		}
+		if e.do(opT{K: "accept", A: e.proc[b]}).R.K != "unit" {
+			break
+		}
+		switch c := r.Intn(12); {
+		case c == 0 && e.pending > 0 && i < 6:
+			e.do(opT{K: "process"})
+		case c < 4:
+			e.lookups(1)
+		case c == 4:
+			e.rejectDoomed(false)
+		}
+		if !e.isProc(e.pref) && e.pref != e.last {
+			e.do(opT{K: "setPref", A: e.last})
+		}
+	}
+	e.lookups(2)
+	e.rejectDoomed(true)
+	e.finishWalk()
+	return e, nil
+}
+
 func genSync(t *testing.T, r *rand.Rand, kind string, hd *holder) (*engine, error) {
 	cfg := pickCfg(r, r.Intn(4) == 0)
 	n, err := newNode(t, cfg)
@@ -1503,6 +1733,7 @@ func replayWalk(t *testing.T, wk walk, hd *holder) (*engine, error) {
 		return nil, err
 	}
 	e := newEngine(rand.New(rand.NewSource(0)), n, wk.Cfg) //nolint:gosec
+	e.replaying = true
 	hd.set(e)
 	for _, o := range wk.Ops {
 		e.do(o)
@@ -1634,12 +1865,19 @@ func TestDriver(t *testing.T) {
 		} else {
 			// three walks in four use P-Chain contexts (inner contexts, VerifyWithContext, BuildBlockWithContext)
 			kind = []string{"mixed+ctx", "parse-only+ctx", "mixed", "deep+ctx", "mixed+ctx", "parse-only", "mixed+ctx", "deep"}[i%8]
+			// the async accepter falls behind the engine (full accept queue): 6 walks in a quick run
+			if i%20 == 5 {
+				kind = []string{"backlog", "backlog+ctx"}[(i/20)%2]
+			}
 		}
 		k := kind
 		e := runWalk(t, func(hd *holder) (*engine, error) {
 			rr := rand.New(rand.NewSource(seed)) //nolint:gosec
 			if env.Prop == "C21" {
 				return genSync(t, rr, k, hd)
+			}
+			if strings.HasPrefix(k, "backlog") {
+				return genBacklog(t, rr, k, hd)
 			}
 			return genLifecycle(t, rr, k, hd)
 		})
